@@ -28,8 +28,8 @@ func semverish(level int, prefixes G, arMin, arMax int) G {
 	coreTiny := dotted(Lit("0", "1"), arMin, arMax)
 	ids := Lit("0", "1", "2", "10", "alpha", "beta", "rc", "a", "A", "B", "Beta", "Alpha", "RC", "x", "-5", "a-b", "0a", "01", "99999999999999999", "18446744073709551616", "pseudo", "dev")
 	pre1 := Seq(Lit("-"), ids)
-	pre2 := Seq(Lit("-"), Lit("0", "1", "alpha", "rc", "x", "-5"), Lit("."), Lit("0", "1", "2", "10", "beta", "a"))
-	build := Lit("+b", "+1.x-y", "+001")
+	pre2 := Seq(Lit("-"), Lit("0", "1", "alpha", "rc", "x", "-5"), Lit("."), Lit("0", "1", "2", "10", "beta", "a", "x", "X"))
+	build := Lit("+b", "+1.x-y", "+001", "+build.x")
 	out := Alt(
 		Seq(prefixes, core),
 		Seq(prefixes, coreTiny, pre1),
